@@ -69,8 +69,14 @@ def gen_texts(ctx, rng):
                     if r < 0.1:
                         segs.append('')                      # empty segment (~~)
                     elif r < 0.2:
-                        segs.append(' ' * rng.randint(1, 3) + docgen.seg(d, 'REF', '87', 'A'))
-                    elif r < 0.3:
+                        # leading blanks; the last value may itself end in white space, which must survive
+                        last = rng.choice(['A', 'PADDED   ', 'A ', 'A\t', 'A \x0b', '  B  '])
+                        if any(ch in d for ch in last):
+                            last = 'A'
+                        segs.append(' ' * rng.randint(1, 3) + docgen.seg(d, 'REF', '87', last))
+                    elif r < 0.25:
+                        segs.append(docgen.seg(d, 'REF', 'ZZ', rng.choice(['TRAIL  ', ' LEAD', ' BOTH ']) if ' ' not in d else 'X'))
+                    elif r < 0.32:
                         segs.append(docgen.seg(d, 'N1', 'PR', '') + d[1] * rng.randint(0, 2))
                     elif r < 0.4:
                         segs.append(docgen.seg(d, 'SVC', ['HC', '99213', ''], '1', ['', '']))
